@@ -379,6 +379,24 @@ class Table:
         return i
 
 
+class NodePool:
+    """hash-consed syntax trees for a batch file"""
+
+    def __init__(self) -> None:
+        self.nodes: T.List[T.List[T.Any]] = []
+        self.index: T.Dict[str, int] = {}
+
+    def add(self, n: Node) -> int:
+        enc = [n['k'], n['s'], n['n'], n['cs'], [self.add(c) for c in n['a']]]
+        key = json.dumps(enc, separators=(',', ':'))
+        i = self.index.get(key)
+        if i is None:
+            i = len(self.nodes)
+            self.index[key] = i
+            self.nodes.append(enc)
+        return i
+
+
 def merge(batches: T.Iterable[T.Dict[str, T.Any]]) -> T.Tuple[T.List[Node], T.List[T.Dict[str, T.Any]]]:
     table = Table()
     cases: T.List[T.Dict[str, T.Any]] = []
@@ -396,36 +414,62 @@ def merge(batches: T.Iterable[T.Dict[str, T.Any]]) -> T.Tuple[T.List[Node], T.Li
 KEEP = ('id', 't', 'af', 'st', 'out', 'em', 'fi')
 
 
-def judge(chk: Check, table: T.List[Node], cases: T.List[T.Dict[str, T.Any]], label: str) -> None:
-    if not cases:
-        return
-    for c in cases:
-        if c['st'].startswith('internal:'):
-            chk.violation('InternalError:' + c['st'][len('internal:'):],
-                          {'program': [table[j] for j in c['t']], 'af': c['af'], 'text': c['text'], 'outcome': c['st'], 'error': c.get('error')})
-    todo = [c for c in cases if not c['st'].startswith('internal:')]
-    by_id = {c['id']: c for c in todo}
-    for part_no, part in enumerate(common.chunks(todo, 60000)):
+class Judge:
+    """Runs TraceLangObj batches on a thread pool while the main thread goes on producing executions;
+    verdicts are applied to the Check in submission order by ``finish``."""
+
+    def __init__(self, chk: Check, tp: ThreadPoolExecutor) -> None:
+        self.chk = chk
+        self.tp = tp
+        self.pending: T.List[T.Tuple[str, T.List[Node], T.Dict[str, T.Dict[str, T.Any]], int, T.Any]] = []
+
+    def submit(self, table: T.List[Node], cases: T.List[T.Dict[str, T.Any]], label: str) -> None:
+        chk = self.chk
+        for c in cases:
+            if c['st'].startswith('internal:'):
+                chk.violation('InternalError:' + c['st'][len('internal:'):],
+                              {'program': [table[j] for j in c['t']], 'af': c['af'], 'text': c['text'], 'outcome': c['st'], 'error': c.get('error')})
+        todo = [c for c in cases if not c['st'].startswith('internal:')]
+        for part_no, part in enumerate(common.chunks(todo, 50000)):
+            # ship only the statements this part uses, hash-consed: nodes[i] = [k, s, n, cs, [child indices]]
+            used = sorted({j for c in part for j in c['t']})
+            remap = {j: i for i, j in enumerate(used)}
+            pool = NodePool()
+            roots = [pool.add(table[j]) for j in used]
+            text = json.dumps({'nodes': pool.nodes, 'roots': roots,
+                               'cases': [dict({k: c[k] for k in KEEP}, t=[remap[j] for j in c['t']]) for c in part]},
+                              separators=(',', ':'))
+            fut = self.tp.submit(self._run, text)
+            self.pending.append((f'TraceLangObj[{label}#{part_no}]', table, {c['id']: c for c in part}, len(part), fut))
+
+    @staticmethod
+    def _run(text: str) -> T.Any:
         with scratch('x04-') as d:
             tf = d / 'cases.json'
-            tf.write_text(json.dumps({'table': table, 'cases': [{k: c[k] for k in KEEP} for c in part]}, separators=(',', ':')))
-            res = run_tlc(FAM, 'TraceLangObj', env={'TRACE_FILE': str(tf)}, timeout=3600, heap='8g')
-        if not res.clean:
-            raise MachineryError('TraceLangObj did not complete cleanly:\n' + res.stdout[-2500:])
-        if res.distinct != 2 * len(part):
-            raise MachineryError(f'TraceLangObj judged {res.distinct // 2} of {len(part)} cases')
-        chk.add_tlc(f'TraceLangObj[{label}#{part_no}]', res, model=False)
-        chk.traces += len(part)
-        for v in res.json_lines():
-            c = by_id.get(v['id'])
-            if c is None:
-                raise MachineryError('verdict for unknown case ' + repr(v.get('id')))
-            prog = [table[j] for j in c['t']]
-            chk.violation(signature(v, c, prog), {'verdict': {k: v[k] for k in ('clause', 'sig', 'code', 'em')},
-                                                  'expected_messages': [txt(x) for x in v['expected']],
-                                                  'observed_messages': [txt(x) for x in c['out']],
-                                                  'outcome': c['st'], 'error': c.get('error'), 'af': c['af'],
-                                                  'text': c['text'], 'program': prog})
+            tf.write_text(text)
+            return run_tlc(FAM, 'TraceLangObj', env={'TRACE_FILE': str(tf)}, timeout=3600, heap='6g', workers=max(2, common.NCPU // 2))
+
+    def finish(self) -> None:
+        chk = self.chk
+        for name, table, by_id, n, fut in self.pending:
+            res = fut.result()
+            if not res.clean:
+                raise MachineryError(name + ' did not complete cleanly:\n' + res.stdout[-2500:])
+            if res.distinct != 2 * n:
+                raise MachineryError(f'{name} judged {res.distinct // 2} of {n} cases')
+            chk.add_tlc(name, res, model=False)
+            chk.traces += n
+            for v in res.json_lines():
+                c = by_id.get(v['id'])
+                if c is None:
+                    raise MachineryError('verdict for unknown case ' + repr(v.get('id')))
+                prog = [table[j] for j in c['t']]
+                chk.violation(signature(v, c, prog), {'verdict': {k: v[k] for k in ('clause', 'sig', 'code', 'em')},
+                                                      'expected_messages': [txt(x) for x in v['expected']],
+                                                      'observed_messages': [txt(x) for x in c['out']],
+                                                      'outcome': c['st'], 'error': c.get('error'), 'af': c['af'],
+                                                      'text': c['text'], 'program': prog})
+        self.pending = []
 
 
 def kinds_map(pairs: T.Sequence[T.Any]) -> T.Dict[str, str]:
@@ -457,9 +501,11 @@ def signature(v: T.Dict[str, T.Any], c: T.Dict[str, T.Any], prog: T.Sequence[Nod
     if tagtext.isdigit():
         cands = [s for s in statements(prog) if msg_tag(s) == int(tagtext)]
         if cands:
-            culprit = head(cands[0], kinds_map(v['rkinds']))
+            # what the object held matters, not whether it had been used: one signature per cause
+            culprit = head(cands[0], {k: x.replace('-used', '') for k, x in kinds_map(v['rkinds']).items()})
     strip = lambda s: None if s is None else (s.split(' ', 1)[1] if ' ' in s else '')  # noqa: E731
-    return f'{clause}@{culprit}:expected={strip(e)!r}:got={strip(g)!r}'
+    # the three output clauses differ in when the difference was noticed, not in what differs
+    return f'OutputDiffers@{culprit}:expected={strip(e)!r}:got={strip(g)!r}'
 
 
 # ---------------------------------------------------------------------------
@@ -478,9 +524,15 @@ def account(chk: Check, table: T.List[Node], cases: T.List[T.Dict[str, T.Any]]) 
 # ---------------------------------------------------------------------------
 # the real command line
 
-def cli_sample(chk: Check, table: T.List[Node], cases: T.List[T.Dict[str, T.Any]], n: int, label: str) -> None:
+def cli_sample(jd: Judge, pools: T.List[T.Tuple[T.List[Node], T.List[T.Dict[str, T.Any]]]]) -> None:
     """The same programs through `meson setup --backend=none`: judged by TLC like the in-process runs."""
-    picked = cases[:n]
+    chk = jd.chk
+    table = Table()
+    picked: T.List[T.Dict[str, T.Any]] = []
+    for tb, cs in pools:
+        for c in cs:
+            if not c['st'].startswith('internal:'):
+                picked.append(dict(c, t=[table.add(tb[j]) for j in c['t']]))
     if not picked:
         return
     env = dict(os.environ)
@@ -490,6 +542,7 @@ def cli_sample(chk: Check, table: T.List[Node], cases: T.List[T.Dict[str, T.Any]
             del env[k]
     with scratch('x04-cli-') as d:
         def run(job: T.Tuple[int, T.Dict[str, T.Any]]) -> T.Dict[str, T.Any]:
+            import re
             i, c = job
             src = d / f'p{i}'
             src.mkdir()
@@ -497,8 +550,8 @@ def cli_sample(chk: Check, table: T.List[Node], cases: T.List[T.Dict[str, T.Any]
             (src / 'meson.options').write_text(OPTIONS)
             p = subprocess.run([common.PYTHON, str(common.REPO / 'meson.py'), 'setup', '--backend=none',
                                 '-Dauto_features=' + AF_NAME[c['af']], str(src / 'b'), str(src)],
-                               stdout=subprocess.PIPE, stderr=subprocess.STDOUT, text=True, timeout=900, env=env)
-            prog = [table[j] for j in c['t']]
+                               stdout=subprocess.PIPE, stderr=subprocess.STDOUT, text=True, timeout=1800, env=env)
+            prog = [table.items[j] for j in c['t']]
             o: T.Dict[str, T.Any] = {'id': 'CLI:' + c['id'], 't': c['t'], 'af': c['af'], 'text': c['text'], 'fi': 0,
                                      'out': messages_of(p.stdout), 'st': 'ok' if p.returncode == 0 else 'fail',
                                      'em': [m for m in error_messages(prog) if txt(m) in p.stdout], 'error': p.stdout[-400:]}
@@ -508,9 +561,7 @@ def cli_sample(chk: Check, table: T.List[Node], cases: T.List[T.Dict[str, T.Any]
                 fn = [ln.strip().rsplit(' in ', 1)[1] for ln in tb if ln.strip().startswith('File ') and 'mesonbuild' in ln and ' in ' in ln]
                 o['st'] = 'internal:' + exc + '@' + (fn[-1] if fn else '')
             elif p.returncode != 0:
-                # line of the failure -> statement, for the report
-                import re
-                m = re.search(r'meson\.build:(\d+):\d+: ERROR', p.stdout)
+                m = re.search(r'meson\.build:(\d+):\d+: ERROR', p.stdout)      # line of the failure -> statement
                 if m:
                     _, where = render(prog)
                     ln = int(m.group(1)) - 1 - len(PRELUDE)
@@ -520,9 +571,9 @@ def cli_sample(chk: Check, table: T.List[Node], cases: T.List[T.Dict[str, T.Any]
             return o
         with ThreadPoolExecutor(max_workers=max(2, common.NCPU // 2)) as tp:
             got = list(tp.map(run, enumerate(picked)))
-    chk.extra['cli_runs'] = chk.extra.get('cli_runs', 0) + len(got)
+    chk.extra['cli_runs'] = len(got)
     chk.evaluations += len(got)
-    judge(chk, table, got, label)
+    jd.submit(table.items, got, 'CLI')
 
 
 # ---------------------------------------------------------------------------
@@ -536,39 +587,42 @@ FEAT_INVARIANTS = ['TypeOK', 'TableEqualsProse', 'OneOfThree', 'AutoFeaturesOver
 
 
 def cfg_text(constants: T.Dict[str, T.Any], invariants: T.Sequence[str], post: T.Optional[str]) -> str:
-    lines = ['SPECIFICATION Spec', 'CONSTANTS'] + [f' {k} = {common.tla(v) if not isinstance(v, bool) else str(v).upper()}' for k, v in constants.items()]
+    lines = ['SPECIFICATION Spec', 'CONSTANTS'] + [f' {k} = {common.tla(v)}' for k, v in constants.items()]
     lines += ['INVARIANT ' + i for i in invariants] + ['CHECK_DEADLOCK FALSE']
     if post:
         lines.append('POSTCONDITION ' + post)
     return '\n'.join(lines) + '\n'
 
 
-def model_check(chk: Check, quick: bool) -> T.Dict[str, T.Any]:
-    """All model-checking runs, concurrently (each TLC gets a share of the cores)."""
+def start_model_checking(tp: ThreadPoolExecutor, quick: bool) -> T.Tuple[T.Dict[str, T.Any], T.Dict[str, T.Any], T.Dict[str, T.Any]]:
+    """Submits (a) export-only runs of the models (bound 0: they only write the input space the model is built from) and
+    (b) the real model-checking runs, which go on in the background while the implementation is being driven.
+    Returns (futures of the exports, futures of the model-checking runs, bounds)."""
     nlen = {'dis': 3, 'feat': 3, 'cfg': 3, 'env': 3} if quick else {'dis': 4, 'feat': 4, 'cfg': 4, 'env': 4}
-    pmax, pbs = (3, True) if quick else (4, True)
-    jobs: T.Dict[str, T.Callable[[], T.Any]] = {}
-    share = max(2, common.NCPU // 3)
+    pruns = [(3, False), (2, True)] if quick else [(4, False), (3, True)]
+    share = max(2, common.NCPU // 2)
+    exports: T.Dict[str, T.Any] = {}
+    runs: T.Dict[str, T.Any] = {}
+    for area in nlen:
+        exports[area] = tp.submit(run_tlc, FAM, 'LangObj_MC', cfg_text=cfg_text({'MaxLen': 0, 'Area': area}, ['Total'], 'EmitSpace'),
+                                  collect=['space.json'], timeout=1800, heap='2g', workers=1, allow_violation=False)
+    for ml, bs in pruns:
+        exports[f'paths{ml}{bs}'] = tp.submit(run_tlc, FAM, 'LangObjPaths_MC',
+                                              cfg_text=cfg_text({'MaxLen': ml, 'WithBackslash': bs, 'Explore': False}, ['AsPosixIdempotent'], 'EmitSpace'),
+                                              collect=['space.json'], timeout=1800, heap='2g', workers=1, allow_violation=False)
     for area, n in nlen.items():
-        jobs['LangObj_MC[' + area + f',MaxLen={n}]'] = (lambda area=area, n=n: run_tlc(
-            FAM, 'LangObj_MC', cfg_text=cfg_text({'MaxLen': n, 'Area': area}, MC_INVARIANTS, 'EmitSpace'),
-            collect=['space.json'], timeout=3600, heap='6g', workers=share, allow_violation=False))
-    jobs[f'LangObjPaths_MC[MaxLen={pmax},backslash]'] = lambda: run_tlc(
-        FAM, 'LangObjPaths_MC', cfg_text=cfg_text({'MaxLen': pmax, 'WithBackslash': pbs}, PATH_INVARIANTS, 'EmitSpace'),
-        collect=['space.json'], timeout=3600, heap='6g', workers=share, allow_violation=False)
-    jobs['LangObjFeature_MC[MaxChain=4]'] = lambda: run_tlc(
-        FAM, 'LangObjFeature_MC', cfg_text=cfg_text({'MaxChain': 4 if quick else 5}, FEAT_INVARIANTS, None),
+        runs[f'LangObj_MC[{area},MaxLen={n}]'] = tp.submit(
+            run_tlc, FAM, 'LangObj_MC', cfg_text=cfg_text({'MaxLen': n, 'Area': area}, MC_INVARIANTS, 'EmitSpace'),
+            collect=['space.json'], timeout=7200, heap='6g', workers=share, allow_violation=False)
+    for ml, bs in pruns:
+        runs[f'LangObjPaths_MC[MaxLen={ml},backslash={bs}]'] = tp.submit(
+            run_tlc, FAM, 'LangObjPaths_MC', cfg_text=cfg_text({'MaxLen': ml, 'WithBackslash': bs, 'Explore': True}, PATH_INVARIANTS, 'EmitSpace'),
+            collect=['space.json'], timeout=7200, heap='6g', workers=share, allow_violation=False)
+    mchain = 3 if quick else 5
+    runs[f'LangObjFeature_MC[MaxChain={mchain}]'] = tp.submit(
+        run_tlc, FAM, 'LangObjFeature_MC', cfg_text=cfg_text({'MaxChain': mchain}, FEAT_INVARIANTS, None),
         timeout=3600, heap='4g', workers=2, allow_violation=False)
-    out: T.Dict[str, T.Any] = {}
-    with ThreadPoolExecutor(max_workers=3) as tp:
-        futs = {name: tp.submit(fn) for name, fn in jobs.items()}
-        for name, fut in futs.items():
-            res = fut.result()
-            chk.add_tlc(name, res)
-            if 'space.json' in res.collected:
-                out[name.split('[')[1].split(',')[0] if name.startswith('LangObj_MC') else 'paths'] = json.loads(res.collected['space.json'])
-    chk.extra['bounds'] = {'statements': nlen, 'path_string_length': pmax}
-    return out
+    return exports, runs, {'statements': nlen, 'path_strings': [{'max_length': ml, 'backslash': bs} for ml, bs in pruns]}
 
 
 def S(s: str) -> Node:
@@ -623,15 +677,22 @@ def main(chk: Check) -> None:
     ncli = 20 if quick else 240
     chk.rule = ('A: every program "prefix + up to N statements" over the four statement alphabets exported by LangObj_MC '
                 '(disabler 32, feature 19 x 3 auto_features values, configuration_data 24, environment 18 statements) and every '
-                'observer of the path helpers over the string set exported by LangObjPaths_MC (singles, pairs, short triples), '
+                'observer of the path helpers over the string sets exported by LangObjPaths_MC (singles, pairs, short triples), '
                 'rendered to meson.build text and run in-process; B: seeded random programs of 8-30 statements; plus a CLI '
                 'sample. Non-trivial = the run printed at least one message or failed (distinct programs).')
-    spaces = model_check(chk, quick)
-    impl_n = chk.extra['bounds']['statements']
-    with ProcessPoolExecutor(max_workers=common.NCPU, initializer=_pool_init) as ex:
+    only = set(filter(None, os.environ.get('X04_ONLY', '').split(',')))     # debugging aid: run some parts only
+    chk.max_reported = int(os.environ.get('X04_MAX_REPORTED', chk.max_reported))
+    with ThreadPoolExecutor(max_workers=4) as tlc_pool, ProcessPoolExecutor(max_workers=common.NCPU, initializer=_pool_init) as ex:
+        exports, mc_runs, bounds = start_model_checking(tlc_pool, quick)
+        chk.extra['bounds'] = bounds
+        impl_n = bounds['statements']
+        jd = Judge(chk, tlc_pool)
+        spaces = {name: json.loads(fut.result().collected['space.json']) for name, fut in exports.items()}
         cli_pool: T.List[T.Tuple[T.List[Node], T.List[T.Dict[str, T.Any]]]] = []
         # (A) statement alphabets
         for area in ('dis', 'feat', 'cfg', 'env'):
+            if only and area not in only:
+                continue
             sp = spaces[area]
             table = list(sp['prefix']) + list(sp['alphabet'])
             npre = len(sp['prefix'])
@@ -645,32 +706,53 @@ def main(chk: Check) -> None:
                     jobs += [('A:' + area, table, npre, n, lo, min(total, lo + step), af) for lo in range(0, total, step)]
             for part in ex.map(_worker_enum, jobs):
                 cases.extend(part)
+                if len(cases) >= 200000:
+                    account(chk, table, cases)
+                    jd.submit(table, cases, 'A:' + area)
+                    cases = []
             account(chk, table, cases)
-            judge(chk, table, cases, 'A:' + area)
+            jd.submit(table, cases, 'A:' + area)
             rnd = random.Random(chk.seed * 31 + len(area))
             cli_pool.append((table, rnd.sample(cases, min(len(cases), max(2, ncli // 8)))))
-            chk.extra.setdefault('space_sizes', {})[area] = len(cases)
+            chk.extra.setdefault('space_sizes', {})[area] = sum((k ** n) for n in range(0, impl_n[area] + 1)) * len(sp['afs'])
         # (A) path helpers
-        ptable, pprogs = path_space(spaces['paths']['strings'], quick)
+        strings = sorted({tuple(x) for name, sp in spaces.items() if name.startswith('paths') for x in sp['strings']})
+        ptable, pprogs = path_space([list(x) for x in strings], quick)
+        if only and 'path' not in only:
+            pprogs = []
         step = max(1, len(pprogs) // (common.NCPU * 3) + 1)
         pcases: T.List[T.Dict[str, T.Any]] = []
         for part in ex.map(_worker_tuples, [('A:path', ptable, pprogs[lo:lo + step]) for lo in range(0, len(pprogs), step)]):
             pcases.extend(part)
         account(chk, ptable, pcases)
-        judge(chk, ptable, pcases, 'A:path')
-        chk.extra['space_sizes']['path'] = len(pcases)
+        jd.submit(ptable, pcases, 'A:path')
+        chk.extra.setdefault('space_sizes', {})['path'] = len(pcases)
+        chk.extra['path_strings'] = len(strings)
         rnd = random.Random(chk.seed * 31 + 7)
         cli_pool.append((ptable, rnd.sample(pcases, min(len(pcases), max(2, ncli // 8)))))
         # (B) random programs
+        if only and 'B' not in only:
+            nrand = 0
         step = max(1, nrand // (common.NCPU * 2))
         btable, bcases = merge(ex.map(_worker_gen, [(lo, min(nrand, lo + step), chk.seed) for lo in range(0, nrand, step)]))
         account(chk, btable, bcases)
-        judge(chk, btable, bcases, 'B:gen')
+        jd.submit(btable, bcases, 'B:gen')
         chk.extra['generated_ok_fraction'] = round(sum(1 for c in bcases if c['st'] == 'ok') / max(1, len(bcases)), 3)
         chk.extra['generated_mean_messages'] = round(sum(len(c['out']) for c in bcases) / max(1, len(bcases)), 2)
         cli_pool.append((btable, bcases[:max(4, ncli // 2)]))
-    for j, (table, cs) in enumerate(cli_pool):
-        cli_sample(chk, table, [c for c in cs if not c['st'].startswith('internal:')], len(cs), f'CLI#{j}')
+        cli_sample(jd, cli_pool)
+        # the model-checking runs that went on meanwhile
+        for name, fut in mc_runs.items():
+            res = fut.result()
+            chk.add_tlc(name, res)
+            if 'space.json' in res.collected:
+                key = name.split('[')[1].split(',')[0] if name.startswith('LangObj_MC') else None
+                full = json.loads(res.collected['space.json'])
+                if key is not None and full != spaces[key]:
+                    raise MachineryError(f'{name}: the model-checked space is not the exported space')
+                if key is None and not all(tuple(x) in set(strings) for x in full['strings']):
+                    raise MachineryError(f'{name}: the model-checked string set is not the exported one')
+        jd.finish()
     chk.exhaustive = True
     chk.assumptions += [
         'outcomes are compared as success-vs-failure, by the texts message() prints (scalars only) and by whether the '
@@ -704,7 +786,10 @@ def replay(chk: Check, data: T.Dict[str, T.Any]) -> None:
     table = Table()
     obs = run_program(prog, af)
     obs.update({'id': 'replay', 't': [table.add(s) for s in prog], 'af': af})
-    judge(chk, table.items, [obs], 'replay')
+    with ThreadPoolExecutor(max_workers=1) as tp:
+        jd = Judge(chk, tp)
+        jd.submit(table.items, [obs], 'replay')
+        jd.finish()
 
 
 if __name__ == '__main__':
